@@ -4,13 +4,15 @@ CONSTANTS MaxPath, EmitVectors
 VARIABLES stage, cfg
 vars == <<stage, cfg>>
 NameSets == { <<1>>, <<1, 2>>, <<2, 1>>, <<1, 2, 3>>, <<2, 3, 1>>, <<101>>, <<101, 102>> }
-Init == stage = "start" /\ cfg = [from |-> "ns", names |-> <<1>>, path |-> << >>, n |-> 2, t |-> 3, ishuf |-> FALSE, trev |-> FALSE]
+Init == stage = "start" /\ cfg = [from |-> "ns", names |-> <<1>>, path |-> << >>, n |-> 2, t |-> 3, ishuf |-> FALSE, trev |-> FALSE, tshift |-> FALSE]
 PickStart == /\ stage = "start"
-             /\ \E r \in {"ns", "na"}, nm \in NameSets, n \in 1..3, t \in 2..4, ish \in BOOLEAN, tr \in BOOLEAN :
+             /\ \E r \in {"ns", "na"}, nm \in NameSets, n \in 1..3, t \in 2..4, ish \in BOOLEAN, tr \in BOOLEAN, tsh \in BOOLEAN :
                     \* instance labels in non-ascending order / time labels in descending order: order of
                     \* appearance is what must be preserved
                     /\ (ish => n >= 2) /\ (tr => r = "ns")
-                    /\ cfg' = [cfg EXCEPT !.from = r, !.names = nm, !.n = n, !.t = t, !.ishuf = ish, !.trev = tr]
+                    \* tshift: every instance's series carries its own time labels (i .. i + t - 1)
+                    /\ (tsh => (r = "ns" /\ ~tr /\ n >= 2))
+                    /\ cfg' = [cfg EXCEPT !.from = r, !.names = nm, !.n = n, !.t = t, !.ishuf = ish, !.trev = tr, !.tshift = tsh]
              /\ stage' = "path"
 Cur == IF Len(cfg.path) = 0 THEN cfg.from ELSE cfg.path[Len(cfg.path)]
 Extend == /\ stage = "path" /\ Len(cfg.path) < MaxPath
@@ -18,7 +20,10 @@ Extend == /\ stage = "path" /\ Len(cfg.path) < MaxPath
                  /\ <<Cur, to>> \in Edges /\ (to = "t2" => Len(cfg.names) = 1)
                  \* the long table is keyed by identifiers (rows are records): order of appearance of
                  \* unsorted instance / time labels is only claimed for the other representations
-                 /\ (to = "long" => (~cfg.ishuf /\ ~cfg.trev))
+                 /\ (to = "long" => (~cfg.ishuf /\ ~cfg.trev /\ ~cfg.tshift))
+                 \* a multi-index frame goes into an array through ONE common time index: instances that carry
+                 \* labels of their own are not claimed for that edge
+                 /\ ((cfg.tshift /\ Cur = "mi") => to \notin {"np3", "np3n"})
                  /\ cfg' = [cfg EXCEPT !.path = Append(@, to)]
           /\ UNCHANGED stage
 Finish == stage = "path" /\ Len(cfg.path) > 0 /\ stage' = "done" /\ UNCHANGED cfg
@@ -29,6 +34,9 @@ E == Expected(cfg)
 ThroughLong == \E i \in DOMAIN cfg.path : cfg.path[i] = "long"
 AllCarry == \A i \in DOMAIN cfg.path : cfg.path[i] \in Carries
 \* round trips and any path not through the long table keep the variables in their original order
+\* the time labels survive exactly when no array representation is on the way
+Inv_TimeLabelsKeptWhenCarried ==
+    (Done /\ (cfg.trev \/ cfg.tshift)) => (E.tl = "orig") = (\A i \in DOMAIN cfg.path : cfg.path[i] \notin LabelLess)
 Inv_OrderPreserved == (Done /\ ~ThroughLong) => E.order = Identity(Len(cfg.names))
 \* names survive exactly when every representation on the way carries names
 Inv_NamesPreservedWhenCarried == (Done /\ AllCarry /\ ~ThroughLong) => E.names = cfg.names
